@@ -65,6 +65,6 @@ func runC08Vol(c C08Vol, info *kit.Info) *kit.Finding {
 }
 
 func TestC08_Volume(t *testing.T) {
-	p := kit.Prop[C08Vol]{ID: "C08", Name: "Volume", Quick: 40, Thorough: 2000, Gen: genC08Vol, Run: runC08Vol}
+	p := kit.Prop[C08Vol]{ID: "C08", Name: "Volume", Quick: 40, Thorough: 1000, Gen: genC08Vol, Run: runC08Vol}
 	p.Execute(t)
 }
